@@ -322,6 +322,9 @@ func c16Pairs() []c16Pair {
 		{"a%2Fb", "a", "percent"}, {"a%2F", "a", "percent"}, {"a", "a%2Fabc", "percent"},
 		{"a.b", "a", "dots"}, {"a..b", "a..", "dots"}, {".a", "a", "dots"}, {"...", "abc", "dots"}, {"..a", ".a", "dots"},
 		{"a", "A", "case"}, {"bob", "eve", "plain"},
+		// ids that are patterns for a glob / regular expression / printf, matching the other id
+		{"*", "alice", "pattern"}, {"a?ice", "alice", "pattern"}, {"team[a-z]", "teamb", "pattern"}, {"al*", "alice", "pattern"},
+		{"alice", "a.ice", "pattern"}, {"%s", "bob", "pattern"}, {"bob", "b{o,x}b", "pattern"},
 	}
 }
 
